@@ -176,6 +176,8 @@ class Interp:
         if isinstance(a, VNone) or isinstance(b, VNone):
             if isinstance(a, VAny) or isinstance(b, VAny):
                 x = a if isinstance(a, VAny) else b
+                if x.notnone:
+                    return False
                 return z3.Function('is_none_val', Val, z3.BoolSort())(x.t)
             return isinstance(a, VNone) and isinstance(b, VNone)
         if self.is_num(a) and self.is_num(b):
@@ -244,6 +246,8 @@ class Interp:
         if isinstance(a, VNone) or isinstance(b, VNone):
             if isinstance(a, VAny) or isinstance(b, VAny):
                 x = a if isinstance(a, VAny) else b
+                if x.notnone:
+                    return False
                 return z3.Function('is_none_val', Val, z3.BoolSort())(x.t)
             return isinstance(a, VNone) and isinstance(b, VNone)
         if isinstance(a, VClass) and isinstance(b, VClass):
